@@ -22,5 +22,21 @@ theorem validOps_from_source (table : List Op) (c : Cfg) (s : State) :
   funext op
   exact (canEmit_from_source c s op).symm
 
+/-- the helper predicates the guards are written in have, in the Rust source of this run, exactly the shapes and
+variant lists the model's `isAt` / `isCallableAt` / `hasMark` / `belowMark` / `aboveMark` / `countToMark` implement:
+`at` = the slot `depth` below the top, `belowTopMark` / `aboveTopMark` = the slot directly below / above the TOPMOST
+MARK (found by scanning from the top), `countToTopMark` = the number of slots above it, `anyMark` = some slot is a MARK -/
+theorem helpers_from_source : Gen.helpers =
+    [("peek_at", "peekAt", []), ("has_mark", "anyMark", []),
+     ("is_list_at", "at", [.list]), ("is_dict_at", "at", [.dict]), ("is_tuple_at", "at", [.tuple]),
+     ("is_string_at", "at", [.string]), ("is_instance_at", "at", [.obj]), ("is_callable_at", "at", [.callable, .glob]),
+     ("is_list_at_mark", "belowTopMark", [.list]), ("is_dict_at_mark", "belowTopMark", [.dict]),
+     ("is_set_at_mark", "belowTopMark", [.set]), ("is_callable_above_mark", "aboveTopMark", [.callable, .glob]),
+     ("count_items_to_mark", "countToTopMark", [])] := by decide
+
+/-- what the model means by "callable" is that variant list -/
+theorem callable_kinds (k : Kind) : isCallableKind k = [Kind.callable, Kind.glob].contains k := by
+  cases k <;> rfl
+
 end Tables
 end PFV
